@@ -1,6 +1,8 @@
 import AggkitModel.Model.BridgeStore
 import AggkitModel.Properties.C01
 import AggkitModel.Generated.SyncFacts
+import AggkitModel.Model.L1InfoStore
+import AggkitModel.Model.LastGER
 set_option linter.unusedSectionVars false
 /-
 C07 — block processing is all-or-nothing under faults; retry is clean; no later block is recorded
@@ -240,3 +242,49 @@ theorem C07_code_facts :
     Gen.SyncFacts.rollbackFlagFlow_ger = ["shouldRollback := true", "Commit", "shouldRollback = false"] := by decide
 
 end Aggkit.C07
+
+namespace Aggkit.C07x
+open Aggkit.L1InfoStore
+variable {α : Type} [DecidableEq α]
+
+/-- **L1 info store, all-or-nothing**: whatever makes `ProcessBlock` fail — a halted processor, a duplicate block, an
+    announced root or leaf count that does not match (the processor halts), a recurring rollup-exit-tree state, or a
+    failing storage statement (`processBlockF`) — the tables and both stored trees are exactly as before. -/
+theorem C07_l1info_atomic (H : HashAlg α) (n : Nat) (s : LP α) (b : Block α) :
+    ((processBlock H n s b).2 ≠ .ok → (processBlock H n s b).1.tb = s.tb) ∧
+    (processBlockF H n s b).1 = s ∧ (processBlockF H n s b).2 ≠ .ok := by
+  refine ⟨?_, ?_, ?_⟩
+  · intro h
+    unfold processBlock at h ⊢
+    by_cases hh : s.halted = true
+    · rw [if_pos hh]
+    · by_cases hc : s.tb.blocks.contains b.num = true
+      · rw [if_neg hh, if_pos hc]
+      · rw [if_neg hh, if_neg hc] at h ⊢
+        simp only at h ⊢
+        generalize procEvents H n b.num _ _ b.events = res at h ⊢
+        obtain ⟨w, halt, r⟩ := res
+        cases r with
+        | some e => rfl
+        | none => exact absurd rfl h
+  · unfold processBlockF; split <;> rfl
+  · unfold processBlockF; split <;> simp
+
+end Aggkit.C07x
+
+namespace Aggkit.LastGER
+
+/-- **injected-GER store, all-or-nothing**: a `ProcessBlock` that does not succeed leaves the store as it was -/
+theorem C07_ger_atomic (s : St) (bn : Nat) (ev : Option GEv) :
+    (processBlock s bn ev).2 ≠ .ok → (processBlock s bn ev).1 = s := by
+  intro h
+  unfold processBlock at h ⊢
+  split
+  · rfl
+  · rename_i hc
+    simp only [hc] at h
+    cases ev with
+    | none => simp at h
+    | some e => cases e <;> simp at h
+
+end Aggkit.LastGER
